@@ -246,7 +246,7 @@ Proof.
   split.
   - intros z ndz Hz. unfold d' in Hz. destruct (N.eqb_spec z k) as [->|Hne'].
     + rewrite nodes_set_same in Hz. inversion Hz; subst.
-      destruct (node_of_ok tasks d k I) as [H1 H2 H3 H4 H5 H6]. fold nd in H1, H2, H3, H4, H5, H6.
+      destruct (node_of_ok tasks d k I) as [H1 H2 H3 H4 H5 H6 H7]. fold nd in H1, H2, H3, H4, H5, H6, H7.
       split; simpl; auto.
       * intros x Hx. destruct (H1 x Hx) as [H|[H|[H|H]]]; auto.
         right; right; right. apply (recd_fields tasks d' nd); [reflexivity|reflexivity|].
@@ -255,6 +255,8 @@ Proof.
         right. apply (recd_fields tasks d' nd); [reflexivity|reflexivity|]. eapply recd_mono; eauto.
       * fold nd in He. rewrite He. discriminate.
       * fold nd in Hns. rewrite Hns. discriminate.
+      * intros c Hc. destruct (H7 c Hc) as [H|[H|[H|H]]]; auto.
+        right; right; right. apply (mrgd_fields tasks d' nd); [reflexivity|reflexivity|]. eapply mrgd_mono; eauto.
     + rewrite nodes_set_other in Hz by auto. eapply node_ok_mono; eauto.
   - intros z Hz. unfold resumable in *. destruct (N.eqb_spec z k) as [->|Hne'].
     + unfold d'. rewrite node_of_set_same. simpl. apply (A k). exact Hz.
@@ -331,10 +333,22 @@ Proof.
     try (destruct (B eq_refl)); try (destruct (I eq_refl)).
 Qed.
 
+(* the EFFECTIVE dependencies of a task: the declared ones, plus everything returned (task_dep,
+   file_dep producers, further calc_dep) by its calc_dep tasks and, transitively, by the calc_dep
+   tasks those return *)
+Inductive eff_calc (t : name) : name -> Prop :=
+| ec_static c : In c (t_calc_dep (get_task t)) -> eff_calc t c
+| ec_more c c' : eff_calc t c -> In c' (t_calc_new_calc (get_task c)) -> eff_calc t c'.
+Definition calc_results (c : name) : list name :=
+  t_calc_new_task (get_task c) ++ t_calc_new_impl (get_task c) ++ t_calc_new_calc (get_task c).
+Inductive eff_dep (t : name) (y : name) : Prop :=
+| ed_static : In y (static_deps t) -> eff_dep t y
+| ed_dyn c : eff_calc t c -> In y (calc_results c) -> eff_dep t y.
+
 Inductive cordered : list event -> Prop :=
 | co_nil : cordered []
 | co_snoc tr e : cordered tr ->
-    (forall t, e = EExecute t -> forall x, In x (static_deps t) -> good_in tr x) ->
+    (forall t, e = EExecute t -> forall x, eff_dep t x -> good_in tr x) ->
     cordered (tr ++ [e]).
 
 Lemma cordered_app_noexec tr evs : cordered tr -> forallb (fun e => negb (is_exec e)) evs = true -> cordered (tr ++ evs).
@@ -347,7 +361,7 @@ Proof.
 Qed.
 
 Lemma cordered_split tr : cordered tr ->
-  forall pre t post, tr = pre ++ EExecute t :: post -> forall x, In x (static_deps t) -> good_in pre x.
+  forall pre t post, tr = pre ++ EExecute t :: post -> forall x, eff_dep t x -> good_in pre x.
 Proof.
   induction 1 as [|tr e Ho IH He]; intros pre t post E x Hx.
   - destruct pre; discriminate.
@@ -377,7 +391,8 @@ Record handed (d : dstate) (k : name) : Prop := {
   h_pre : PreX tasks d k;
   h_rec : deps_recd tasks d k;
   h_srec : n_pc (node_of d k) = PDone -> setup_recd tasks d k;
-  h_srun : n_pc (node_of d k) = PDone -> st_of d k = SRun
+  h_srun : n_pc (node_of d k) = PDone -> st_of d k = SRun;
+  h_mrg : calcs_mrgd tasks d k
 }.
 
 Lemma handed_in_setup d k : handed d k -> in_setup (n_pc (node_of d k)) = false.
@@ -606,24 +621,44 @@ Proof.
 Qed.
 
 
-(* a task is started only if everything it depends on was reported successful or up-to-date *)
+(* a task is started only if everything it effectively depends on was reported successful or up-to-date *)
+Lemma good_visible s : is_goodst s = true -> calc_values_visible s = true.
+Proof. destruct s; simpl; auto. Qed.
+
 Lemma select_true_good r k r1 :
   RI (r_d r) (r_tr r) -> handed (r_d r) k -> select_task r k = (true, r1) ->
-  forall x, In x (static_deps k) -> good_in (r_tr r1) x.
+  forall x, eff_dep k x -> good_in (r_tr r1) x.
 Proof.
   intros HR HK E x Hx.
   destruct (select_task_post r k true r1 HR HK E) as (R1 & _ & _ & Pc & _ & _ & T1 & O1).
   destruct (T1 eq_refl) as (Srun & Hb & Hi).
-  assert (Hg : is_goodst (st_of (r_d r) x) = true).
-  { unfold static_deps in Hx. rewrite app_assoc in Hx. apply in_app_iff in Hx. destruct Hx as [Hx|Hx].
-    - eapply recd_good; eauto. apply (h_rec _ _ HK). destruct (ri_static _ _ HR k) as [A B].
-      rewrite in_app_iff in *. destruct Hx as [Hx|Hx]; [left; apply A|right; apply B]; exact Hx.
-    - destruct (h_pc _ _ HK) as [Hp|Hp].
-      + pose proof (select_first_true r k r1 (h_first _ _ HK Hp) E) as Hn. apply is_nil_true in Hn.
-        rewrite Hn in Hx. destruct Hx.
-      + eapply recd_good; eauto. apply (h_srec _ _ HK Hp). exact Hx. }
+  set (d := r_d r) in *. set (nd := node_of d k) in *.
+  assert (Hall : forall y, In y (n_all_task nd ++ n_all_calc nd) -> is_goodst (st_of d y) = true).
+  { intros y Hy. eapply recd_good; eauto. apply (h_rec _ _ HK). exact Hy. }
+  assert (Hcalc : forall c, eff_calc k c -> In c (n_all_calc nd)).
+  { intros c Hc. induction Hc as [c Hc|c c' Hc IH Hc'].
+    - destruct (ri_static _ _ HR k) as [_ B]. apply B. exact Hc.
+    - destruct (h_mrg _ _ HK c IH) as (_ & M). fold d in M. fold nd in M.
+      assert (V : calc_values_visible (st_of d c) = true).
+      { apply good_visible. apply Hall. apply in_app_iff. right. exact IH. }
+      destruct (M V) as (_ & _ & M3). apply M3. exact Hc'. }
+  assert (Hg : is_goodst (st_of d x) = true).
+  { destruct Hx as [Hx|c Hc Hx].
+    - unfold static_deps in Hx. rewrite app_assoc in Hx. apply in_app_iff in Hx. destruct Hx as [Hx|Hx].
+      + apply Hall. destruct (ri_static _ _ HR k) as [A B].
+        rewrite in_app_iff in *. destruct Hx as [Hx|Hx]; [left; apply A|right; apply B]; exact Hx.
+      + destruct (h_pc _ _ HK) as [Hp|Hp].
+        * pose proof (select_first_true r k r1 (h_first _ _ HK Hp) E) as Hn. apply is_nil_true in Hn.
+          rewrite Hn in Hx. destruct Hx.
+        * eapply recd_good; eauto. apply (h_srec _ _ HK Hp). exact Hx.
+    - pose proof (Hcalc c Hc) as Hin.
+      destruct (h_mrg _ _ HK c Hin) as (_ & M). fold d in M. fold nd in M.
+      assert (V : calc_values_visible (st_of d c) = true).
+      { apply good_visible. apply Hall. apply in_app_iff. right. exact Hin. }
+      destruct (M V) as (M1 & M2 & M3). apply Hall. unfold calc_results in Hx.
+      rewrite !in_app_iff in Hx. rewrite in_app_iff. destruct Hx as [Hx|[Hx|Hx]]; [left; apply M1|left; apply M2|right; apply M3]; exact Hx. }
   apply (RI_good (r_d r1)); auto. rewrite O1; auto.
-  intros ->. pose proof (handed_unfinished _ _ HK) as Hu. destruct (st_of (r_d r) k); simpl in *; discriminate.
+  intros ->. pose proof (handed_unfinished _ _ HK) as Hu. fold d in Hu. destruct (st_of d k); simpl in *; discriminate.
 Qed.
 
 (* ---------- no task is executed twice ---------- *)
@@ -681,7 +716,7 @@ Qed.
 
 Lemma handed_of_post d d' k : disp_post tasks d d' (DTask k) -> handed d' k /\ d_cur d' = Some k /\ ~ spent tasks d k.
 Proof.
-  intros (_ & _ & _ & _ & _ & _ & N & C & D1 & D2 & D3 & D4 & D5 & D6 & D7 & D8). split; [split; auto|auto].
+  intros (_ & _ & _ & _ & _ & _ & N & C & D1 & D2 & D3 & D4 & D5 & D6 & D7 & D8 & D9). split; [split; auto|auto].
 Qed.
 
 Lemma process_result_pc r k z :
@@ -897,7 +932,7 @@ Qed.
 (* a task with a dependency that failed, was ignored -- anything but successful / up-to-date -- is
    never executed *)
 Lemma bad_dep_never_runs tr t x e :
-  fonce tr -> cordered tr -> In x (static_deps t) ->
+  fonce tr -> cordered tr -> eff_dep t x ->
   In e tr -> is_final_ev x e = true -> is_good_ev e = false -> ~ In (EExecute t) tr.
 Proof.
   intros Hf Hc Hx He Hfe Hbad Hex. apply in_split in Hex. destruct Hex as (pre & post & E).
@@ -908,7 +943,7 @@ Qed.
 
 Theorem serial_bad_dep_never_runs fuel sel t x e :
   let tr := fst (run_serial tasks wake_rank calc_rank continue_ always fuel sel) in
-  In x (static_deps t) -> In e tr -> is_final_ev x e = true -> is_good_ev e = false -> ~ In (EExecute t) tr.
+  eff_dep t x -> In e tr -> is_final_ev x e = true -> is_good_ev e = false -> ~ In (EExecute t) tr.
 Proof.
   cbv zeta. intros. eapply bad_dep_never_runs; eauto; [apply serial_one_final|apply serial_contained].
 Qed.
